@@ -1,6 +1,7 @@
 import OpcuaModel.Base.Loop
 import OpcuaModel.Model.Asym
 import OpcuaModel.Gen.Asym
+import OpcuaModel.Model.RsaRef
 /-
   Driver for C15.
     accept <policy> <localBits|-> <remoteBits|->   → ok | err
@@ -9,8 +10,15 @@ import OpcuaModel.Gen.Asym
     raw    <scheme> <kBytes> <len>                 → the same through the bare struct (no constructor limits)
     dec    <policy> <kBytes> <len> <trunc>         → ok <plainLen> | err      (ciphertext of a <len>-byte plaintext cut to <trunc> bytes)
     nokey                                          → err err
+    rsaverify <sha1|sha256> <nHex> <e> <msgHex> <sigHex> → ok | bad      (Lean reference RSASSA-PKCS1-v1_5 verification)
+    rsaem <nHex> <e> <sigHex>                      → <hex of I2OSP(sig^e mod n, k)> | bad
 -/
 open Opcua Opcua.Asym
+open Opcua.RsaRef in
+def hashOf : String → Option Opcua.CryptoRef.HashAlg
+  | "sha1" => some .sha1
+  | "sha256" => some .sha256
+  | _ => none
 
 def findRow (name : String) : Option AsymRow :=
   Gen.asymRows.find? (·.name == name)
@@ -83,6 +91,19 @@ def handle : List String → String
         | _ => "bad-op"
       | none => "bad-op"
     | _, _, _, _ => "bad-op"
+  | ["rsaverify", alg, nHex, e, msgHex, sigHex] =>
+    match hashOf alg, fromHex nHex, e.toNat?, fromHex msgHex, fromHex sigHex with
+    | some h, some nb, some ee, some msg, some sig =>
+      if Opcua.RsaRef.rsaVerifyPkcs1v15 (Opcua.RsaRef.os2ip nb) ee h msg sig then "ok" else "bad"
+    | _, _, _, _, _ => "bad-op"
+  | ["rsaem", nHex, e, sigHex] =>
+    match fromHex nHex, e.toNat?, fromHex sigHex with
+    | some nb, some ee, some sig =>
+      let n := Opcua.RsaRef.os2ip nb
+      let k := Opcua.RsaRef.byteLen n
+      if sig.length ≠ k ∨ Opcua.RsaRef.os2ip sig ≥ n then "bad"
+      else toHex (Opcua.RsaRef.i2osp (Opcua.RsaRef.modPow (Opcua.RsaRef.os2ip sig) ee n) k)
+    | _, _, _ => "bad-op"
   | ["nokey"] =>
     match mkToy .oaepSha1 256 with
     | some R =>
